@@ -198,6 +198,9 @@ func c03Check(c c03Case) (why string, grew bool, skip string) {
 			c.Other = ""
 		}
 	}
+	if overBudget(c.Lib, c.placements()["top"]) {
+		return "", false, "reference budget"
+	}
 	base, internal := runEmbedding(c.Lib, c.placements()["top"])
 	if internal != "" {
 		return "", false, internal
